@@ -690,7 +690,7 @@ pub fn run_alloc(thorough: bool, seed: u64, threads: usize, prop_cases: u32) -> 
                 let mut runner = TestRunner::new_with_rng(cfg, TestRng::from_seed(RngAlgorithm::ChaCha, &sb));
                 let st = std::cell::RefCell::new(AStats::default());
                 let failed = std::cell::Cell::new(false);
-                let res = runner.run(&acase_strategy(40), |c| match run_acase(&c) {
+                let res = runner.run(&acase_strategy(40), |c| match { crate::watch::tick(); run_acase(&c) } {
                     Ok(f) => {
                         if !failed.get() {
                             st.borrow_mut().note(&c, f);
